@@ -70,6 +70,11 @@ def cases(tier, seed, i, n):
                 for ai in ('kbint', 'sysexit'):
                     k += 1
                     yield dict(kind='sim', tls=tls, size=size, shape='many-small', rec=16384 if tls else None, short=None, nb=3, seed=k, appint=ai)
+        # another thread is stalled inside a send on this connection (the peer's window is full - it is busy writing
+        # itself): what has ARRIVED is delivered all the same, the loop does not wait for the sender
+        for astuck in ('send_binary', 'send_text', 'send_ping'):
+            for z_ in (False, True):
+                yield dict(kind='stalled-sender', astuck=astuck, z=z_)
         for via in ('https-proxy', 'http-proxy'):
             for size in (1000, 16384, 20000, 70000):
                 for shape in ('one-message', 'many-small', 'ends-with-empty'):
@@ -188,6 +193,8 @@ def build_bursts(case):
 def run_case(case, acc):
     if case['kind'] == 'real':
         return run_real(case, acc)
+    if case['kind'] == 'stalled-sender':
+        return run_stalled_sender(case, acc)
     bursts, expected = build_bursts(case)
     steps = []
     for t, data in bursts:
@@ -289,6 +296,72 @@ def run_case(case, acc):
             acc.sample(dict(tls=tls, size=case['size'], shape=case['shape'], rec=case.get('rec'), short=case.get('short'),
                             messages=len(expected), blocking_waits=w.blocked_waits,
                             reads=sum(1 for e in w.log if e[0] in ('recv', 'tls_read'))))
+
+
+def run_stalled_sender(case, acc):
+    """controlled scheduler: thread A is parked for ever in the middle of a socket write ('stalled' is a logical state),
+    the loop thread must still deliver the messages that arrive"""
+    from .. import sched, schedlock
+    hs = dict(extra=[('Sec-WebSocket-Extensions', 'permessage-deflate')]) if case['z'] else {}
+    # (no Ping among them: its automatic Pong is a write on this connection and waits behind the stalled one - the known
+    # open finding about stalled senders, not a matter of draining)
+    steps = [('hs', hs), ('at', 2.0), ('raw', F(1, b'arrived while the sender is stalled') + F(10, b'pp') + F(2, b'\x01\x02'))]
+    with sched.InstalledShim():
+        w = H.World(lambda _i: simnet.ScriptServer(steps), split_send=True, horizon=30.0, stop_at=30.0)
+        with simnet.Installed(w):
+            ws = env.WebSocket('ws://example.com/', compress=bool(case['z']), proxies={})
+            g = ws.connect(session_class=simnet.SimSession, ping_rate=0, poll=5.0)
+            for ev in g:
+                if ev.name == 'poll':
+                    break
+            s = sched.Scheduler(files=sched.WRITE_PATH_FILES)
+            never = schedlock.SchedLock(False)
+            never.owner = 'never-released'
+            st = {'a_in_write': False, 'seen': []}
+
+            def hook(tag):
+                if s.current is not None and s.current.name == 'A' and not st['a_in_write']:
+                    st['a_in_write'] = True
+                    s.current.blocked_on = never        # the peer has stopped reading
+                    s.switch_away()
+                else:
+                    s.yield_point(tag)
+            w.yield_hook = hook
+
+            def thread_a():
+                if case['astuck'] == 'send_text':
+                    ws.send_text('stalled ' * 40)
+                elif case['astuck'] == 'send_ping':
+                    ws.send_ping(b'stalled ping payload')
+                else:
+                    ws.send_binary(b's' * 300)
+
+            def thread_loop():
+                try:
+                    for ev in g:
+                        st['seen'].append(ev.name)
+                        if ev.name == 'binary' or len(st['seen']) > 12:
+                            break
+                except (StopIteration, simnet.Quiesced):
+                    st['seen'].append('<end>')
+            s.spawn('A', thread_a)
+            s.spawn('loop', thread_loop)
+            s.run(first=0, timeout=20.0)
+            w.yield_hook = None
+    acc.count2('oracle', 'stalled_sender_runs')
+    detail = dict(a_reached_write=st['a_in_write'], seen=st['seen'], deadlock=s.deadlock, hung=s.hung)
+    if s.hung:
+        acc.inconclusive.append('stalled-sender: scheduler watchdog %r' % (detail,))
+        return
+    if not st['a_in_write']:
+        acc.inconclusive.append('stalled-sender: thread A never reached the socket write %r' % (detail,))
+        return
+    got = [n for n in st['seen'] if n in ('text', 'pong', 'binary')]
+    if got != ['text', 'pong', 'binary']:
+        acc.violation('available-messages-not-delivered-while-another-thread-is-stalled-in-a-send',
+                      'C18 loop %s while %s is stalled' % ('dead-locked' if s.deadlock else 'delivered %r' % (got,), case['astuck']), case, detail)
+    else:
+        acc.cls('stalled-sender/%s/z%d' % (case['astuck'], int(case['z'])))
 
 
 # ------------------------------------------------------------------ real transports
